@@ -10,6 +10,7 @@ at the top-level directory.
 */
 
 #include "slu_mt_sdefs.h"
+#include "slu_mt_verif.h"
 
 
 int_t
@@ -317,6 +318,7 @@ psgstrf_column_dfs(
 	    lsub[k++] = lsub[ifrom];
 	
     } else { /* Supernode of size > 1: overwrite column jcol-1 */
+	SLU_VERIF_EV("Join", pnum, jcol, fsupc, nsuper);
 	k = xlsub_end[fsupc];
 	xlsub[jcol] = k;
 	xprune[fsupc] = k;
